@@ -25,7 +25,8 @@ EXTENDS Timing, Json, IOUtils
 CONSTANTS MarginUs,   \* rounding margin of the two one-sided rules
           TickUs,     \* 100 000: one model tick
           TolUs,      \* a script token counts as "on script" when both stamps are within TolUs of the prediction
-          SlackUs     \* scheduling slack granted to the run-length bound
+          SlackUs,    \* scheduling slack granted to the run-length bound
+          PaceSlackUs \* client-side overhead granted to a paced shot on top of max(served time, min_waiting_time)
 
 VARIABLES l, viol, run, maxdur, confirmed, offscript, ntoks, nruns
 
@@ -67,7 +68,7 @@ OnScript(e) == /\ Abs((e.a - e.tok) - e.pa * TickUs) <= TolUs
 
 TraceTok ==
     /\ Ev.ev = "tok"
-    /\ LET r == [k |-> Ev.k, tok |-> Ev.tok, a |-> Ev.a, b |-> Ev.b, d |-> Ev.d, r |-> Ev.dur, i |-> 1, lz |-> 0]
+    /\ LET r == [k |-> Ev.k, tok |-> Ev.tok, a |-> Ev.a, b |-> Ev.b, d |-> Ev.d, r |-> Ev.dur, i |-> 1, lz |-> 0, pf |-> Ev.pf]
            decided == r.d \in {"fire", "discard"}
            scripted == Ev.exp # ""
        IN  /\ last' = [last EXCEPT ![1] = r]
@@ -83,6 +84,11 @@ TraceTok ==
                  <<"discarded-inside-window", disc /\ decided /\ ~RecMustFire(r, MAX, MarginUs)>>,
                  <<"discarded-while-off", ~disc /\ r.d = "discard">>,
                  <<"discard-not-marked", r.d = "discard" /\ ~(Ev.net = 777 /\ Ev.tag = "discarded")>>,
+                 \* scenario pacing (mw = min_waiting_time of the run, 0 for ordinary guns; dur = -1: shot cut by the run limit)
+                 <<"next-shot-before-min-wait", decided /\ ~RecPaced(r, Ev.mw)>>,
+                 <<"shot-shorter-than-min-wait", r.d = "fire" /\ Ev.dur >= 0 /\ Ev.dur < Ev.mw>>,
+                 <<"paced-longer-than-needed", r.d = "fire" /\ Ev.mw > 0 /\
+                                               Ev.dur > (IF Ev.srv > Ev.mw THEN Ev.srv ELSE Ev.mw) + PaceSlackUs>>,
                  <<"script-decision-diverged", scripted /\ decided /\ OnScript(Ev) /\ r.d # Ev.exp>> >>)
            /\ confirmed' = IF scripted /\ decided /\ OnScript(Ev) /\ r.d = Ev.exp THEN confirmed + 1 ELSE confirmed
            /\ offscript' = IF scripted /\ ~(decided /\ OnScript(Ev)) THEN offscript + 1 ELSE offscript
